@@ -171,7 +171,7 @@ def run(tier):
     import gzip as _gz, bz2 as _bz, lzma as _xz
     for cname, blob in (("gz", _gz.compress(tarb, mtime=0)), ("bz2", _bz.compress(tarb)), ("xz", _xz.compress(tarb, format=_xz.FORMAT_XZ))):
         cases.append(("tar2sqfs-" + cname, ["tar2sqfs", "-q", "-f", "-c", "gzip", "-b", "4096", "@OUT"], blob, "file"))
-    rcz, zblob, ez = sh(["zstd", "-q", "-c"], stdin=tarb, timeout=60)
+    rcz, zblob, ez = sh(["zstd", "-q", "-c"], stdin=tarb, timeout=60) if vlib.have("zstd") else (1, b"", b"")
     if rcz == 0 and zblob:
         cases.append(("tar2sqfs-zst", ["tar2sqfs", "-q", "-f", "-c", "gzip", "-b", "4096", "@OUT"], zblob, "file"))
     cases.append(("sqfs2tar", ["sqfs2tar", img], None, "stdout"))
